@@ -49,7 +49,10 @@ def build(np, rng, cfg):
             Q, _ = np.linalg.qr(rng.standard_normal((nel, nel)))
             Te = Q
         else:
-            Te = np.eye(nel) + 0.3 * rng.standard_normal((nel, nel))
+            for _ in range(50):          # a congruence of moderate condition number (see drive_C01: sensitivity grows like cond(T)^2)
+                Te = np.eye(nel) + 0.3 * rng.standard_normal((nel, nel))
+                if np.linalg.cond(Te) <= 30:
+                    break
         T[np.ix_(el, el)] = Te
         M, B, K = T.T @ M @ T, T.T @ B @ T, T.T @ K @ T
     if cfg.get("gyro"):
@@ -93,7 +96,8 @@ def body(run: Run, replay):
                        "tolerance 1e-9 relative to the response scale at each frequency (dynamic stiffness away from singularity: damped modes)"]
     rng = np.random.default_rng(run.seed)
     quant = ["d", "v", "a"]
-    for ci, (cfg, zero_ok, pattern) in enumerate(cfgs):
+    # thorough: every configuration is instantiated with sixteen independent random systems / force spectra
+    for ci, (cfg, zero_ok, pattern) in enumerate(list(cfgs) * (1 if run.tier == "quick" else 16)):
         incrb = "".join(sorted(cfg["incrb"]))
         s = build(np, rng, cfg)
         n = s["n"]
